@@ -291,7 +291,15 @@ class Program:
             if ty.startswith('&'): return None       # std blanket impls for references -> models
             ty = re.sub(r"<.*>", '', ty).replace('&', '').replace('mut ', '').strip().split('::')[-1]
             trait = re.sub(r"<.*>", '', trait).split('::')[-1]
-            return s.by_key.get((trait, ty, meth))
+            f = s.by_key.get((trait, ty, meth))
+            if f is None:
+                # impls nested inside a function body (visitor structs): `outer::<impl at ..>::f::<impl at ..>::meth` with receiver type `ty`
+                key = ('nested', ty, meth)
+                if key not in s.by_key:
+                    cands = [g for n, g in s.fns.items() if n.endswith('>::' + meth) and n.count('<impl at') >= 2 and g.params and re.sub(r'[&\s]|mut ', '', g.locals[g.params[0]]).split('::')[-1] == ty]
+                    s.by_key[key] = cands[0] if len(cands) == 1 else None
+                f = s.by_key[key]
+            return f
         m = re.match(r'^([\w:]+)::(\w+)$', c)
         if m:
             ty, meth = m.group(1).split('::')[-1], m.group(2)
